@@ -58,6 +58,28 @@ def external(ctx, idu, ids, context):
                 ctx.expect(e.ok and e.outs[:3] == p.outs[:3], "failing after the last callback changes nothing")
             else:
                 ctx.expect(not e.ok and e.err == "Lib:Custom:%d" % n, "failure of callback %d (%s) is returned as the custom error (%s)" % (n, which, e.err))
+    # the key holder's serialized form is an opaque HANDLE (PROTOCOL.md: scalar XOR a per-group mask), not key material:
+    # the key whose handle is all-zero (scalar == mask, valid in every group) is created, saved, reloaded and used like any other
+    mask = bytearray(b"\x40" * L.Nsk)
+    if L.ke == "R255":
+        mask[-1] = 0
+    elif L.ke == "P521":
+        mask[0] = 0
+    mask = bytes(mask)
+    v = ctx.call("ke_sk", mask)
+    ctx.expect(v.ok and v.b(0) == mask, "the mask is a valid private key of the group")
+    t0 = ctx.tape(L.Nh + L.Nsk + 8)
+    z = ctx.call("ext_setup", t0, mask, 0, model_args=[t0, mask, NO, NO], impl_extra=1)
+    if ctx.expect(z.ok, "setup with the external key whose handle is all-zero (%s)" % z.err):
+        zd = ctx.call("ext_dec_setup", z.b(0), 0, model_args=[z.b(0), NO, NO], impl_extra=1)
+        ctx.expect(zd.ok and zd.b(0) == z.b(0), "... reloads to itself (%s)" % zd.err)
+        gz = honest_flow(ctx, b"pw", b"zoe", context, idu, ids, setup=z.b(0), stop_on_error=False)
+        ctx.expect(gz.ok, "... and serves registration and login")
+        tz = ctx.tape(L.Nh + 64 + L.Nsk + 16)
+        pz = ctx.call("srv_login_start", tz, z.b(0), gz.file, gz.ke1, b"zoe", context, idu, ids)
+        ez = ctx.call("ext_srv_login_start", tz, z.b(0), gz.file, gz.ke1, b"zoe", context, idu, ids, 0,
+                      model_args=[tz, z.b(0), gz.file, gz.ke1, b"zoe", context, idu, ids, NO, NO], impl_extra=1)
+        ctx.expect(pz.ok and ez.ok and ez.outs[:3] == pz.outs[:3], "... through the key holder exactly as through the plain key")
     # a setup created with an external key serves logins like a plain one
     g = honest_flow(ctx, b"pw", b"alice", context, idu, ids, setup=ext_setup, stop_on_error=False)
     ctx.expect(g.ok, "setup created with an external key works with the plain API")
